@@ -63,7 +63,7 @@ impl Property for C17 {
     }
     fn runs(&self, tier: Tier) -> u64 {
         match tier {
-            Tier::Quick => 150_000,
+            Tier::Quick => 300_000,
             Tier::Thorough => 5_000_000,
         }
     }
@@ -296,7 +296,7 @@ impl Property for C18 {
     }
     fn runs(&self, tier: Tier) -> u64 {
         match tier {
-            Tier::Quick => 600_000,
+            Tier::Quick => 2_000_000,
             Tier::Thorough => 12_000_000,
         }
     }
